@@ -2,8 +2,8 @@
 from harness import check, replay
 
 LENSES = {
-    "quick": ["core_pointwise", "core_reduce", "core_index", "core_stackcat", "core_intops", "core_moreops"],
-    "thorough": ["core_pointwise", "core_reduce", "core_index", "core_stackcat", "core_intops", "core_moreops"],
+    "quick": ["core_pointwise", "core_reduce", "core_index", "core_stackcat", "core_intops", "core_moreops", "binder_indep"],
+    "thorough": ["core_pointwise", "core_reduce", "core_index", "core_stackcat", "core_intops", "core_moreops", "binder_indep"],
 }
 
 
